@@ -316,6 +316,12 @@ def _leg_ctor(case, add, counters):
     # mismatching conditional members separated by an unconditional one (a pairwise neighbour comparison misses these)
     conds = [(a, ai) for a, ai in infos if ai.cond_shape is not None]
     unconds = [(a, ai) for a, ai in infos if ai.cond_shape is None]
+    for shp_ in ([], [2], [3], [2, 3]):  # same shape, three different condition shapes (the representatives rarely offer that)
+        for cs_ in ([], [2], [3]):
+            sp = g.L("AddCond", shape=shp_, cond=cs_)
+            conds.append((sp, g.info(sp)))
+        sp = g.L("Affine", shape=shp_)
+        unconds.append((sp, g.info(sp)))
     for (a, ai), (b, bi) in itertools.product(conds, repeat=2):
         if ai.cond_shape == bi.cond_shape or ai.shape != bi.shape:
             continue
